@@ -164,7 +164,7 @@ def h_dist_ranges(ctx, kind, bounds="both"):
         stubs.uninstall(ctx.symbolic)
 
 
-def h_noisy_mapping(ctx, which):
+def h_noisy_mapping(ctx, which, seed=9):
     """non-trivial error model: result is still a valid (sub-)unitary circuit; same seed -> same circuit"""
     from symx import stubs
     lw = ctx.lw
@@ -184,12 +184,12 @@ def h_noisy_mapping(ctx, which):
     shared = {}
     w1 = _install(ctx, shared, 1)
     try:
-        m1 = itf.Reck(em).map(c, seed=9)
+        m1 = itf.Reck(em).map(c, seed=seed)
     finally:
         stubs.uninstall(ctx.symbolic)
     w2 = _install(ctx, shared, 2)
     try:
-        m2 = itf.Reck(em).map(c, seed=9)
+        m2 = itf.Reck(em).map(c, seed=seed)
     finally:
         stubs.uninstall(ctx.symbolic)
     U1 = m1.U_full
@@ -220,5 +220,5 @@ def harnesses(tier):
         ("monomial", h_monomial, mono),
         ("block-diagonal", h_block, [dict()], dict(check_timeout_ms=12000, max_seconds=900)),
         ("dist-ranges", h_dist_ranges, [dict(kind=k) for k in ("tophat", "constant")] + [dict(kind="gaussian", bounds=b) for b in ("both", "min", "max", "none")]),
-        ("noisy-mapping", h_noisy_mapping, [dict(which=w) for w in ("tophat", "gaussian")], dict(check_timeout_ms=60000)),
+        ("noisy-mapping", h_noisy_mapping, [dict(which=w, seed=sd) for w in ("tophat", "gaussian") for sd in (9, 0)], dict(check_timeout_ms=60000)),
     ]
